@@ -683,11 +683,26 @@ _cfg = 'sat_abs(S0.config.max_points_in_random_expressions)'
 row('CODE.RAND', ['C12'], takes=[('int', 1)], touches=['code'], clauses=[kept('code', 0, 1),
     ('fired.value.code.bound', '(S0.int.len() >= 1 && S1.code.len() == S0.code.len() + 1) ==> crate::push::item::points(top(S1.code, 0)) <= %s && crate::push::item::points(top(S1.code, 0)) <= %s' % (_lim, _cfg)),
     ('{C12,C10}unfired.code', 'S0.int.len() == 0 ==> S1.code == S0.code')])
+_bsz, _bsp = 'top(S0.int, 0)', 'top(S0.float, 0)'
+_bvalid = '(%s >= 0 && f32_ge(%s, 0.0f32) && f32_le(%s, 1.0f32))' % (_bsz, _bsp, _bsp)
 row('BOOLVECTOR.RAND', ['C13'], takes=[('int', 1), ('float', 1)], touches=['boolvec'], clauses=[kept('boolvec', 0, 1),
+    ('fired.length-and-bit-count', '(S0.int.len() >= 1 && S0.float.len() >= 1 && %s) ==> (S1.boolvec.len() == S0.boolvec.len() + 1 && top(S1.boolvec, 0).values@.len() == %s '
+     '&& crate::push::random::count_eq(top(S1.boolvec, 0).values@, !f32_gt(%s, 0.5f32)) == f32_to_i32_spec(f32_mul(crate::push::random::sparse_share(%s), i32_to_f32(%s))))' % (_bvalid, _bsz, _bsp, _bsp, _bsz)),
+    ('fired.invalid-parameters-push-nothing', '(S0.int.len() >= 1 && S0.float.len() >= 1 && !%s) ==> S1.boolvec == S0.boolvec' % _bvalid),
     ('{C13,C10}unfired.boolvec', '!(S0.int.len() >= 1 && S0.float.len() >= 1) ==> S1.boolvec == S0.boolvec')])
+# INTVECTOR.RAND: program text `min max size INTVECTOR.RAND` (size on top, then max, then min) -- pinned by the repository's test
+_isz, _imax, _imin = 'top(S0.int, 0)', 'top(S0.int, 1)', 'top(S0.int, 2)'
 row('INTVECTOR.RAND', ['C13'], takes=[('int', 3)], touches=['intvec'], clauses=[kept('intvec', 0, 1),
+    ('fired.length-and-range', '(S0.int.len() >= 3 && %s >= 0 && %s < %s) ==> (S1.intvec.len() == S0.intvec.len() + 1 && top(S1.intvec, 0).values@.len() == %s '
+     '&& (forall|i: int| 0 <= i < %s ==> %s <= #[trigger] top(S1.intvec, 0).values@[i] < %s))' % (_isz, _imin, _imax, _isz, _isz, _imin, _imax)),
+    ('fired.invalid-parameters-push-nothing', '(S0.int.len() >= 3 && !(%s >= 0 && %s < %s)) ==> S1.intvec == S0.intvec' % (_isz, _imin, _imax)),
     ('{C13,C10}unfired.intvec', '!(S0.int.len() >= 3) ==> S1.intvec == S0.intvec')])
+# FLOATVECTOR.RAND: mean = top FLOAT, standard deviation = second FLOAT
+_fsz, _fmean, _fstd = 'top(S0.int, 0)', 'top(S0.float, 0)', 'top(S0.float, 1)'
+_fvalid = '(%s >= 0 && f32_ge(%s, 0.0f32) && f_is_finite(%s))' % (_fsz, _fstd, _fstd)
 row('FLOATVECTOR.RAND', ['C13'], takes=[('int', 1), ('float', 2)], touches=['floatvec'], clauses=[kept('floatvec', 0, 1),
+    ('fired.length', '(S0.int.len() >= 1 && S0.float.len() >= 2 && %s) ==> (S1.floatvec.len() == S0.floatvec.len() + 1 && top(S1.floatvec, 0).values@.len() == %s)' % (_fvalid, _fsz)),
+    ('fired.invalid-parameters-push-nothing', '(S0.int.len() >= 1 && S0.float.len() >= 2 && !%s) ==> S1.floatvec == S0.floatvec' % _fvalid),
     ('{C13,C10}unfired.floatvec', '!(S0.int.len() >= 1 && S0.float.len() >= 2) ==> S1.floatvec == S0.floatvec')])
 FN_OVERLAYS['code::code_position'] = dict(proofs={'body_start': '''        proof {
             if push_state.code_stack@.len() >= 2 {
